@@ -23,6 +23,7 @@ def main():
     ap.add_argument("--replay")
     ap.add_argument("--jobs", type=int, default=0)
     ap.add_argument("--case", help="run only cases whose name contains this")
+    ap.add_argument("--confirm", help=argparse.SUPPRESS)
     a = ap.parse_args()
     if a.replay:
         return runner.replay(a.replay)
@@ -32,6 +33,8 @@ def main():
         print("no check registered for %s" % a.prop)
         return 2
     mod = importlib.import_module(modname)
+    if a.confirm:
+        return runner.confirm(modname, a.confirm)
     if a.case:
         orig = mod.cases
         mod.cases = lambda tier: [c for c in orig(tier) if a.case in c.name]
